@@ -148,6 +148,13 @@ func runC06(p *core.Program, r *core.Report) {
 			checkFilterAllOf(p, r, g, "R2.5")
 		})
 	}
+	// the capitalisation bonus is granted on the constructor's judgement "Title(w) != w for every kept
+	// word"; it is only earned when the generator capitalises with that same function (= C04 R4.4 re-run)
+	if g, why := resolveWLGen(p); g == nil {
+		r.Unrecognised("R6.3", "(spg.WLRecipe).Generate", "generation shape", "", why)
+	} else {
+		r.Borrow("R6.3", func() { checkTitleIffCap(p, r, g, "R4.4") })
+	}
 	// a separator function made by the factory reports the entropy of the very generation that
 	// produced the separator (= C16 R16.3 factory rule; a pre-computed figure is wrong when that generation fails)
 	r.Borrow("R6.2", func() { checkSeparatorFactories(p, r) })
